@@ -22,7 +22,8 @@ RULE = ("Hypothesis draws TWO configurations (depth 1-6 x width 1-4 with depth*w
         "pid per line) predicts the COMPLETE set of relative paths and file contents under each "
         "root; exact equality; hashstore.yaml parsed with yaml.safe_load carries the documented "
         "keys and values. Non-trivial = (depth, width, algorithm) != (3, 2, SHA-256); distinct key = "
-        "(both configurations, identifier shape classes).")
+        "(both configurations, identifier shape classes)."
+        ' One case in six makes the surviving pid the path of an existing regular file.')
 ASSUMPTIONS = ["layout as described in README.md 'Working with objects' / hashstore.yaml comments"]
 
 
